@@ -207,6 +207,9 @@ def _unit_order(model, sizes, form, limit, generic):
             enc = lambda md: ({}, {"ranks": [{"v": [i, 1], "k": "int"} for i in range(n)]})
         ra = call(mA.rate, gA, **ka)
         rb = call(mB.rate, gB, **kb)
+        if generic:
+            from .. import teams as _T
+            _T.guard(ra, rb)
 
         def mk(md):
             a, b = enc(md)
